@@ -2,10 +2,19 @@ from engine import Query
 KF = 'C08-ctrl-raw'
 META = {
  'functions': ['JSONUtils::Escape (JSONUtils.hpp:198-245)', 'JSONUtils::UnEscape (JSONUtils.hpp:78-196)',
-               'JSONUtils::JSONotation_T::GetReplacementChar (JSONUtils.hpp:272-276)'],
- 'bounds': '',
- 'outside': '',
- 'assumptions': [],
+               'JSONUtils::JSONotation_T::GetReplacementChar (JSONUtils.hpp:272-276)',
+               'Digit::HexStringToNumber / Unicode::ToUTF (reached by UnEscape only once Escape emits \\u00XX)'],
+ 'bounds': 'every string of exactly L code units, L = 0..4 quick / 0..6 thorough, contents symbolic over all code-unit values, char / char16_t / char32_t. '
+           'escape-valid: the text Escape appends (behind a one-unit symbolic prefix, FixedStream of 6L+2 units) is scanned by a reference RFC 8259 '
+           'string-body scanner: no raw unit < 0x20, no unescaped quote, every backslash starts \\" \\\\ \\/ \\b \\f \\n \\r \\t or \\uXXXX; '
+           'overflow flag false, prefix preserved. escape-round: UnEscape(Escape(s) + closing quote) into an EMPTY stream returns the full length '
+           'and, with the caller convention of JSON.hpp:193-205 (empty stream => raw slice), yields s. '
+           'escape-valid-ctrl (known finding C08-ctrl-raw, L = 1): restricted to strings containing a unit < 0x20 other than \\b \\t \\n \\f \\r.',
+ 'outside': 'strings longer than 4 / 6 units; UnEscape called with a non-empty destination stream; UnEscape on text not produced by Escape '
+            '(C06/C20); Value::Stringify / the parser around the two functions (other parts of C08); wchar_t',
+ 'assumptions': ['FixedStream stand-in for the Stream_T template parameter (escaped text CAP 6L+2, decoded text CAP L+1)',
+                 'while C08-ctrl-raw is open, escape-valid assumes the string has no unit < 0x20 other than \\b \\t \\n \\f \\r; '
+                 'escape-round assumes nothing'],
 }
 H = 'C08_escape.cpp'
 def queries(tier):
